@@ -1,6 +1,7 @@
 #!/bin/bash
 # sweep.sh <tier> [ids...]  -- run checks one after the other from the current directory (usable under `vp run`)
 export VERIF_DIR=$PWD
+[ -n "$VP_RUN_REPO" ] && export VERIF_REPO=$VP_RUN_REPO
 tier=${1:-quick}; shift
 ids=${@:-C01 C02 C03 C04 C05 C06 C07 C08 C09 C10 C11 C12 C13 C14 C15 C16 C17 C18 C19 C20}
 for id in $ids; do
